@@ -11,10 +11,13 @@ func init() {
 			"(E4a) every write to engine state read by CheckIfAllowed is followed/preceded, on every path to a normal return, by an invalidation of the result cache; " +
 			"(E4b) every exported entry of package eval that adds an admin network policy returns with the slice sorted by priority; " +
 			"(E2) the delete paths dereference nothing that is nil when the object is absent; " +
-			"(C15-d) everything the cached computation reads from a peer is part of the cache key or covered by E4a. " +
+			"(C15-d-store) a verdict is stored in the result cache only by the function that looked the key up, under the same key, and is exactly what that function returns next with a nil error; a hit returns the cached value unchanged; " +
+			"(C15-d-key) the key is (owner key of src, owner key of dst, protocol, port) in this order, the owner key holds namespace, owner name and label variant, the variant is always the hash of the labels given to the same pod, and the hashed text is an entry-delimited encoding of the whole label map. " +
 			"NOT decided: the answers themselves, correctness of deleteWorkload's substring matching, lru eviction, verdict changes through pod fields outside the cache key."
 		rules.CacheInvalidation(p, r)
 		rules.SortedTypestate(p, r)
+		rules.CacheWriteDiscipline(p, r, "C15-d-store")
+		rules.CacheKeyShape(p, r, "C15-d-key")
 		r.Floor("E4a", 8)
 		r.Assume("pod-granular cache bookkeeping (addPod/deletePod) is accepted as invalidation for podsMap only: the cache key embeds namespace, owner name and label hash of both pods")
 		r.Assume("a closure is invoked before its creating function returns (true for every closure of the module: sort callbacks, option setters are not on these paths)")
